@@ -1,6 +1,6 @@
 (* C12 — macro expansion and inclusion.  Property theorems only. *)
 From Coq Require Import List NArith Bool String Arith.
-From RV Require Import Macro MacroProofs MacroSubst.
+From RV Require Import Macro MacroProofs MacroSubst MacroLines MacroPaste MacroChain MacroSelf MacroNested MacroMutual.
 Import ListNotations.
 Local Open Scope string_scope.
 
@@ -125,6 +125,156 @@ Example C12_object_example :
   apply_macros (fun _ _ => None) ex_defs2 [MId "x"; MSym "+"; MId "K"; MSym ";"] =
   XOk [MId "x"; MSym "+"; MLP; MLit "4"; MRP; MSym ";"].
 Proof. vm_compute. reflexivity. Qed.
+(* ==== further substitution theorems (MacroLines / MacroPaste / MacroChain / MacroSelf / MacroNested / MacroMutual) ==== *)
+Local Open Scope list_scope.
+(* ---- #define and redefinition take effect from their line onward: whatever the name meant before, the next text
+        line sees the new replacement list; after #undef the name is an ordinary identifier ---- *)
+Theorem C12_define_takes_effect :
+  forall paste files fuel self cmd m pre post st,
+    parse_define cmd = Some m -> m_fn m = false ->
+    let defs' := remove_macro (m_name m) (ps_macros st) ++ [m] in
+    plain defs' pre -> plain defs' post -> plain defs' (m_body m) ->
+    run paste files (S (S (S fuel))) self [IDefine cmd; IText (pre ++ MId (m_name m) :: post)] st =
+    inl {| ps_macros := defs'; ps_once := ps_once st; ps_out := ps_out st ++ pre ++ m_body m ++ post |}.
+Proof. exact define_takes_effect. Qed.
+
+Theorem C12_define_function_takes_effect :
+  forall paste files fuel self cmd m pre args post st,
+    parse_define cmd = Some m -> m_fn m = true ->
+    let defs' := remove_macro (m_name m) (ps_macros st) ++ [m] in
+    args <> [] -> List.length args = m_params m -> Forall (simple defs') args ->
+    plain defs' pre -> plain defs' post -> forallb (bodyb defs') (m_body m) = true ->
+    run paste files (S (S (S fuel))) self
+        [IDefine cmd; IText (pre ++ MId (m_name m) :: MLP :: commas args ++ MRP :: post)] st =
+    inl {| ps_macros := defs'; ps_once := ps_once st;
+           ps_out := ps_out st ++ pre ++ subst (m_body m) (map trim args) ++ post |}.
+Proof. exact define_function_takes_effect. Qed.
+
+Theorem C12_undef_takes_effect :
+  forall paste files fuel self x pre post st,
+    let defs' := remove_macro x (ps_macros st) in
+    plain defs' pre -> plain defs' post ->
+    run paste files (S (S (S fuel))) self [IUndef x; IText (pre ++ MId x :: post)] st =
+    inl {| ps_macros := defs'; ps_once := ps_once st; ps_out := ps_out st ++ pre ++ MId x :: post |}.
+Proof. exact undef_takes_effect. Qed.
+
+Example C12_lines_example :
+  run ex_paste (fun _ => None) 10 "main"
+      [IDefine [MWs; MId "X"; MWs; MLit "1"]; IText [MId "X"; MEndl];
+       IDefine [MWs; MId "X"; MWs; MLit "2"]; IText [MId "X"; MEndl];
+       IUndef "X"; IText [MId "X"; MEndl]]
+      {| ps_macros := []; ps_once := []; ps_out := [] |} =
+  inl {| ps_macros := []; ps_once := []; ps_out := [MLit "1"; MEndl; MLit "2"; MEndl; MId "X"; MEndl] |}.
+Proof. vm_compute. reflexivity. Qed.
+
+(* ---- `##` pastes its neighbours into one token: every paste function, every macro table holding
+        `#define name(p,q) p ## q`, every pair of single-token arguments that name no macro, in plain surroundings ---- *)
+Theorem C12_paste_macro_pastes :
+  forall (paste : mtok -> mtok -> option mtok) (defs : list macro) (mi : nat) (m : macro)
+         (pre : list mtok) (a b t : mtok) (post : list mtok),
+    nth_error defs mi = Some m -> m_fn m = true -> m_params m = 2 ->
+    m_body m = [MArg 0; MWs; MConcat; MWs; MArg 1] ->
+    (forall j m', j < mi -> nth_error defs j = Some m' -> String.eqb (m_name m) (m_name m') = false) ->
+    simple defs [a] -> simple defs [b] -> is_ws a = false -> is_ws b = false ->
+    paste a b = Some t -> plain defs [t] ->
+    plain defs pre -> plain defs post ->
+    apply_macros paste defs (pre ++ MId (m_name m) :: MLP :: a :: MComma :: b :: MRP :: post) = XOk (pre ++ t :: post).
+Proof. exact paste_macro_pastes. Qed.
+
+Example C12_paste_example_hyps :
+  nth_error ex_defs 2 = Some (nth 2 ex_defs (def [])) /\ m_body (nth 2 ex_defs (def [])) = [MArg 0; MWs; MConcat; MWs; MArg 1] /\
+  simple ex_defs [MId "x"] /\ plain ex_defs [MId "xy"].
+Proof. repeat split; reflexivity. Qed.
+Example C12_paste_example :
+  apply_macros ex_paste ex_defs ([MId "u"; MWs] ++ MId "g" :: MLP :: MId "x" :: MComma :: MId "y" :: MRP :: [MSym ";"]) =
+  XOk [MId "u"; MWs; MId "xy"; MSym ";"].
+Proof. vm_compute. reflexivity. Qed.
+(* ---- a replacement list that names another object-like macro (one level of nesting): the rescan expands it ---- *)
+Theorem C12_object_chain_is_replaced :
+  forall (paste : mtok -> mtok -> option mtok) (defs : list macro) (ia : nat) (a : macro) (ib : nat) (b : macro)
+         (pre post preA postA : list mtok),
+    nth_error defs ia = Some a -> m_fn a = false ->
+    nth_error defs ib = Some b -> m_fn b = false ->
+    m_body a = preA ++ MId (m_name b) :: postA ->
+    String.eqb (m_name a) (m_name b) = false ->
+    (forall j m', j < ia -> nth_error defs j = Some m' -> String.eqb (m_name a) (m_name m') = false) ->
+    (forall j m', j < ib -> nth_error defs j = Some m' -> String.eqb (m_name b) (m_name m') = false) ->
+    plain defs pre -> plain defs post -> plain defs preA -> plain defs postA -> plain defs (m_body b) ->
+    apply_macros paste defs (pre ++ MId (m_name a) :: post) = XOk (pre ++ (preA ++ m_body b ++ postA) ++ post).
+Proof. exact object_chain_is_replaced. Qed.
+
+(* #define L 1 + K ;      #define K ( 4 ) *)
+Definition ex_defs3 : list macro :=
+  [def [MWs; MId "L"; MWs; MLit "1"; MWs; MSym "+"; MWs; MId "K"; MWs; MSym ";"];
+   def [MWs; MId "K"; MWs; MLP; MWs; MLit "4"; MWs; MRP]].
+Example C12_chain_example :
+  apply_macros (fun _ _ => None) ex_defs3 [MId "x"; MSym "="; MId "L"; MEndl] =
+  XOk [MId "x"; MSym "="; MLit "1"; MWs; MSym "+"; MWs; MLP; MWs; MLit "4"; MWs; MRP; MWs; MSym ";"; MEndl].
+Proof. vm_compute. reflexivity. Qed.
+(* ---- a self-referential object-like macro: the name inside its own replacement list stays as it is - it is neither
+        expanded by the rescan (the macro is disabled there) nor when the scan resumes behind the replacement ---- *)
+Theorem C12_self_reference_stays :
+  forall (paste : mtok -> mtok -> option mtok) (defs : list macro) (mi : nat) (m : macro)
+         (pre post preA postA : list mtok),
+    nth_error defs mi = Some m -> m_fn m = false ->
+    (forall j m', j <> mi -> nth_error defs j = Some m' -> String.eqb (m_name m) (m_name m') = false) ->
+    m_body m = preA ++ MId (m_name m) :: postA ->
+    plain defs pre -> plain defs post -> plain defs preA -> plain defs postA ->
+    apply_macros paste defs (pre ++ MId (m_name m) :: post) = XOk (pre ++ m_body m ++ post).
+Proof. exact self_reference_stays. Qed.
+
+(* #define a ( a + 1 ) *)
+Definition ex_defs4 : list macro := [def [MWs; MId "a"; MWs; MLP; MId "a"; MWs; MSym "+"; MWs; MLit "1"; MRP]].
+Example C12_self_example :
+  apply_macros (fun _ _ => None) ex_defs4 [MId "x"; MSym "="; MId "a"; MSym ";"; MId "y"] =
+  XOk [MId "x"; MSym "="; MLP; MId "a"; MWs; MSym "+"; MWs; MLit "1"; MRP; MSym ";"; MId "y"].
+Proof. vm_compute. reflexivity. Qed.
+(* ---- nested invocation: an argument that is the name of an object-like macro is expanded before it is substituted ---- *)
+Theorem C12_argument_is_expanded_first :
+  forall (paste : mtok -> mtok -> option mtok) (defs : list macro) (fi : nat) (f : macro) (ki : nat) (k : macro)
+         (pre post : list mtok),
+    nth_error defs fi = Some f -> m_fn f = true -> m_params f = 1 ->
+    nth_error defs ki = Some k -> m_fn k = false ->
+    (forall j m', j < fi -> nth_error defs j = Some m' -> String.eqb (m_name f) (m_name m') = false) ->
+    (forall j m', j < ki -> nth_error defs j = Some m' -> String.eqb (m_name k) (m_name m') = false) ->
+    forallb (bodyb defs) (m_body f) = true -> plain defs (m_body k) ->
+    plain defs pre -> plain defs post ->
+    apply_macros paste defs (pre ++ MId (m_name f) :: MLP :: MId (m_name k) :: MRP :: post) =
+    XOk (pre ++ subst (m_body f) [m_body k] ++ post).
+Proof. exact argument_is_expanded_first. Qed.
+
+(* #define sq(v) ((v)*(v))      #define K 4 + 1 *)
+Definition ex_defs5 : list macro :=
+  [def [MWs; MId "sq"; MLP; MId "v"; MRP; MWs; MLP; MLP; MId "v"; MRP; MSym "*"; MLP; MId "v"; MRP; MRP];
+   def [MWs; MId "K"; MWs; MLit "4"; MWs; MSym "+"; MWs; MLit "1"]].
+Example C12_nested_example :
+  apply_macros (fun _ _ => None) ex_defs5 [MId "x"; MSym "="; MId "sq"; MLP; MId "K"; MRP; MSym ";"] =
+  XOk [MId "x"; MSym "="; MLP; MLP; MLit "4"; MWs; MSym "+"; MWs; MLit "1"; MRP; MSym "*"; MLP; MLit "4"; MWs; MSym "+"; MWs; MLit "1"; MRP; MRP; MSym ";"].
+Proof. vm_compute. reflexivity. Qed.
+(* ---- mutually referential object-like macros: B is replaced on the rescan of A's list, the A inside B's list stays ---- *)
+Theorem C12_mutual_reference :
+  forall (paste : mtok -> mtok -> option mtok) (defs : list macro) (ia : nat) (a : macro) (ib : nat) (b : macro)
+         (pre post preA postA preB postB : list mtok),
+    nth_error defs ia = Some a -> m_fn a = false ->
+    nth_error defs ib = Some b -> m_fn b = false ->
+    m_body a = preA ++ MId (m_name b) :: postA ->
+    m_body b = preB ++ MId (m_name a) :: postB ->
+    String.eqb (m_name a) (m_name b) = false ->
+    (forall j m', j <> ia -> nth_error defs j = Some m' -> String.eqb (m_name a) (m_name m') = false) ->
+    (forall j m', j < ib -> nth_error defs j = Some m' -> String.eqb (m_name b) (m_name m') = false) ->
+    plain defs pre -> plain defs post -> plain defs preA -> plain defs postA -> plain defs preB -> plain defs postB ->
+    apply_macros paste defs (pre ++ MId (m_name a) :: post) =
+    XOk (pre ++ (preA ++ (preB ++ MId (m_name a) :: postB) ++ postA) ++ post).
+Proof. exact mutual_reference. Qed.
+
+(* #define A 1 B 2      #define B 3 A 4 *)
+Definition ex_defs6 : list macro :=
+  [def [MWs; MId "A"; MWs; MLit "1"; MWs; MId "B"; MWs; MLit "2"];
+   def [MWs; MId "B"; MWs; MLit "3"; MWs; MId "A"; MWs; MLit "4"]].
+Example C12_mutual_example :
+  apply_macros (fun _ _ => None) ex_defs6 [MId "x"; MId "A"; MId "y"] =
+  XOk [MId "x"; MLit "1"; MWs; MLit "3"; MWs; MId "A"; MWs; MLit "4"; MWs; MLit "2"; MId "y"].
+Proof. vm_compute. reflexivity. Qed.
 Print Assumptions C12_expansion_terminates.
 Print Assumptions C12_include_is_paste.
 Print Assumptions C12_pragma_once_marks.
@@ -133,3 +283,11 @@ Print Assumptions C12_defines_are_define_lines.
 Print Assumptions C12_plain_text_unchanged.
 Print Assumptions C12_object_macro_is_replaced.
 Print Assumptions C12_function_macro_is_substituted.
+Print Assumptions C12_define_takes_effect.
+Print Assumptions C12_define_function_takes_effect.
+Print Assumptions C12_undef_takes_effect.
+Print Assumptions C12_paste_macro_pastes.
+Print Assumptions C12_object_chain_is_replaced.
+Print Assumptions C12_self_reference_stays.
+Print Assumptions C12_argument_is_expanded_first.
+Print Assumptions C12_mutual_reference.
